@@ -470,6 +470,56 @@ impl Property for C03 {
             });
         ctx.run_strategy("random-nested", 1, ctx.tier.pick(40_000, 600_000), &strat, nontrivial);
 
+        // ---------------- merged mappings with sequence / mapping keys -------------------
+        // the rule is stated over key nodes, not key strings: a source may supply several
+        // composite keys, and an own composite key overrides an equal merged one
+        let ckey = prop::sample::select(vec![0usize, 1, 2, 3, 4, 5]).prop_map(|i| match i {
+            0 => Node::seq(true, vec![s("1"), s("2")]),
+            1 => Node::seq(true, vec![s("3"), s("4")]),
+            2 => Node::map(true, vec![(s("k"), s("v"))]),
+            3 => Node::seq(true, vec![s("1")]),
+            4 => s("a"),
+            _ => s("b"),
+        });
+        let csource = prop::collection::vec(ckey.clone(), 1..4);
+        let strat = (
+            prop::collection::vec(ckey, 0..3),
+            prop::collection::vec((csource, 0usize..4, 0usize..3), 1..3),
+            0u32..(1 << 12),
+            prop::sample::select(Dup::ALL.to_vec()),
+        )
+            .prop_map(|(own, merges, lb, dup)| {
+                let uniq = |ks: Vec<Node>| {
+                    let mut out: Vec<Node> = vec![];
+                    for k in ks {
+                        if !out.iter().any(|k2| gdoc::same_key(k2, &k)) {
+                            out.push(k);
+                        }
+                    }
+                    out
+                };
+                let mut entries: Vec<(Node, Node)> = uniq(own).into_iter().enumerate().map(|(j, k)| (k, s(&format!("o{j}")))).collect();
+                let mut defs = vec![];
+                for (i, (ks, pos, supply)) in merges.into_iter().enumerate() {
+                    let src = Node::map(true, uniq(ks).into_iter().enumerate().map(|(j, k)| (k, s(&format!("m{i}{j}")))).collect());
+                    let p = pos.min(entries.len());
+                    let v = match supply {
+                        0 => src,
+                        1 => {
+                            let name = format!("r{i}");
+                            defs.push(src.anchored(&name));
+                            Node::alias(&name)
+                        }
+                        _ => Node::seq(true, vec![Node::map(true, vec![(s("z"), s("9"))]), src]),
+                    };
+                    entries.insert(p, (s("<<"), v));
+                }
+                let t = Node::map(false, entries);
+                let doc = if defs.is_empty() { t } else { Node::map(false, vec![(s("defs"), Node::seq(false, defs)), (s("t"), t)]) };
+                Case { doc, layout: Layout::from_bits(lb), dup, target: Target::Untyped, expect: "ok".into() }
+            });
+        ctx.run_strategy("composite-key-merges", 4, ctx.tier.pick(8_000, 100_000), &strat, nontrivial);
+
         // ---------------- invalid merge values ------------------------------------------
         let bad = prop_oneof![
             prop::sample::select(vec!["x", "1", "true", "zz"]).prop_map(s),
